@@ -256,7 +256,7 @@ def case_prestretched(fam, rep):
             solid = fem.SolidBody(fem.NeoHooke(mu=float(rng.uniform(0.5, 2)), bulk=float(rng.uniform(2, 8))), field, density=float(rng.uniform(0.5, 3)))
             b, lc = fem.dof.uniaxial(field, clamped=True, move=float(rng.uniform(0.1, 0.3)) * L[0], sym=False)
             fem.newtonrhapson(items=[solid], verbose=False, **lc)
-            k = int(rng.integers(2, 7))
+            k = max(1, min(int(rng.integers(2, 7)), len(fem.dof.partition(field, b)[1]) - 2))  # the sparse eigensolver needs k < N
             job = fem.FreeVibration([solid], b).evaluate(k=k)
             for n in range(k):
                 job.extract(n, inplace=False)
@@ -280,7 +280,7 @@ def case_mixed(rep):
             umat = fem.ThreeFieldVariation(fem.NeoHooke(mu=float(rng.uniform(0.5, 2)), bulk=float(rng.uniform(5, 50))))
             solid = fem.SolidBody(umat, field, density=float(rng.uniform(0.5, 3)))
             b = {"left": fem.Boundary(field[0], fx=0.0)}
-            k = int(rng.integers(2, 7))
+            k = max(1, min(int(rng.integers(2, 7)), len(fem.dof.partition(field, b)[1]) - 2))  # the sparse eigensolver needs k < N
             job = fem.FreeVibration([solid], b).evaluate(k=k)
             job.extract(k - 1, inplace=False)
             run.units["modal:mixed-container"] += 1
